@@ -785,7 +785,8 @@ class BlobStorage(BlobStorageMixin):
         # other than the one being committed: then the blob files of the
         # transaction in progress must stay too.
         current = getattr(self.__storage, 'tpc_transaction', None)
-        ours = not arg or current is None or arg[0] is current()
+        transaction = arg[0] if arg else kw.get('transaction')
+        ours = current is None or transaction is current()
         self.__storage.tpc_abort(*arg, **kw)
         if ours:
             self._blob_tpc_abort()
